@@ -128,18 +128,24 @@ predicate:
 									{ $$ = ast.NewBinary(ast.BinaryStartsWith, $1, $4) }
 	| expr LIKE_REGEX_P STRING_P
 	{
-		var err error
-		$$, err = ast.NewRegex($1, $3, "")
+		re, err := ast.NewRegex($1, $3, "")
 		if err != nil {
+			// Keep a node in place so that parsing can go on to the end.
 			pathlex.Error(err.Error())
+			$$ = $1
+		} else {
+			$$ = re
 		}
 	}
 	| expr LIKE_REGEX_P STRING_P FLAG_P STRING_P
 	{
-		var err error
-		$$, err = ast.NewRegex($1, $3, $5)
+		re, err := ast.NewRegex($1, $3, $5)
 		if err != nil {
+			// Keep a node in place so that parsing can go on to the end.
 			pathlex.Error(err.Error())
+			$$ = $1
+		} else {
+			$$ = re
 		}
 	}
 	;
@@ -220,6 +226,7 @@ accessor_op:
 				$$ = ast.NewBinary(ast.BinaryDecimal, $4[0], $4[1])
 			default:
 				pathlex.Error("invalid input syntax: .decimal() can only have an optional precision[,scale]")
+				$$ = ast.NewBinary(ast.BinaryDecimal, nil, nil)
 			}
 		}
 	| '.' DATE_P '(' ')' { $$ = ast.NewUnary(ast.UnaryDate, nil) }
